@@ -79,6 +79,12 @@ func genLDH(r *core.Rand) string {
 				b[j] = '-'
 			}
 		}
+		if k >= 4 && r.Chance(1, 5) { // the full LDH grammar: a run of 2-3 hyphens at any inner offset (1, 2 = "R-LDH" position, …)
+			at := r.Range(1, k-3)
+			for j := at; j < at+r.Range(2, 3) && j < k-1; j++ {
+				b[j] = '-'
+			}
+		}
 		if i == n-1 {
 			b[0] = al[r.Intn(len(al))]
 		}
